@@ -13,6 +13,7 @@ import (
 	"os/exec"
 	"path/filepath"
 	"strings"
+	"sync"
 	"syscall"
 	"time"
 )
@@ -119,4 +120,132 @@ func httpDo(method, url string, hdr map[string]string, body []byte) (int, []byte
 	var b bytes.Buffer
 	b.ReadFrom(resp.Body)
 	return resp.StatusCode, b.Bytes()
+}
+
+// gateServer: an in-memory HTTP chunk store (GET/HEAD/PUT on /xxxx/<id>.cacnk) that stops the k-th request at its
+// entry, tells the harness, and goes on when released; requests can also be made to fail from the k-th on
+type gateServer struct {
+	mu       sync.Mutex
+	objects  map[string][]byte
+	requests int
+	holdAt   int // < 0: never
+	failFrom int // < 0: never; requests with index >= failFrom are answered 500
+	arrived  chan struct{}
+	release  chan struct{}
+	puts     int
+}
+
+func newGateServer() *gateServer {
+	return &gateServer{objects: map[string][]byte{}, holdAt: -1, failFrom: -1, arrived: make(chan struct{}, 1), release: make(chan struct{})}
+}
+
+func (g *gateServer) ServeHTTP(w http.ResponseWriter, r *http.Request) {
+	g.mu.Lock()
+	k := g.requests
+	g.requests++
+	hold := g.holdAt >= 0 && k == g.holdAt
+	fail := g.failFrom >= 0 && k >= g.failFrom
+	rel := g.release
+	g.mu.Unlock()
+	var body []byte
+	if r.Method == "PUT" {
+		var b bytes.Buffer
+		b.ReadFrom(r.Body)
+		body = b.Bytes()
+	}
+	if hold {
+		select {
+		case g.arrived <- struct{}{}:
+		default:
+		}
+		select {
+		case <-rel:
+		case <-time.After(30 * time.Second):
+		}
+	}
+	if fail {
+		w.WriteHeader(http.StatusInternalServerError)
+		return
+	}
+	g.mu.Lock()
+	defer g.mu.Unlock()
+	switch r.Method {
+	case "GET", "HEAD":
+		b, ok := g.objects[r.URL.Path]
+		if !ok {
+			w.WriteHeader(http.StatusNotFound)
+			return
+		}
+		if r.Method == "GET" {
+			w.Write(b)
+		}
+	case "PUT":
+		g.objects[r.URL.Path] = body
+		g.puts++
+	default:
+		w.WriteHeader(http.StatusMethodNotAllowed)
+	}
+}
+
+// reset prepares the next run: request counter to zero, a fresh release channel
+func (g *gateServer) reset(holdAt, failFrom int) {
+	g.mu.Lock()
+	g.requests, g.holdAt, g.failFrom, g.release = 0, holdAt, failFrom, make(chan struct{})
+	g.mu.Unlock()
+	select {
+	case <-g.arrived:
+	default:
+	}
+}
+
+func (g *gateServer) open() {
+	g.mu.Lock()
+	select {
+	case <-g.release:
+	default:
+		close(g.release)
+	}
+	g.mu.Unlock()
+}
+
+// runSignalled starts the command, sends sig when the held request has arrived (or after the command ended),
+// releases the request a moment later and waits for the exit status (-1: no exit within a minute)
+func runSignalled(bin string, g *gateServer, sig syscall.Signal, args ...string) (exit int, signalled bool, stderr string) {
+	cmd := exec.Command(bin, args...)
+	cmd.Env = append(os.Environ(), "HOME=/nonexistent-home")
+	var se bytes.Buffer
+	cmd.Stderr = &se
+	if err := cmd.Start(); err != nil {
+		return -1, false, err.Error()
+	}
+	done := make(chan error, 1)
+	go func() { done <- cmd.Wait() }()
+	var werr error
+	finished := false
+	select {
+	case <-g.arrived:
+		cmd.Process.Signal(sig)
+		signalled = true
+		time.Sleep(30 * time.Millisecond) // let the handler cancel the context before the request goes on
+		g.open()
+	case werr = <-done:
+		finished = true
+	case <-time.After(30 * time.Second):
+	}
+	if !finished {
+		select {
+		case werr = <-done:
+		case <-time.After(60 * time.Second):
+			cmd.Process.Kill()
+			<-done
+			return -1, signalled, se.String()
+		}
+	}
+	if werr == nil {
+		return 0, signalled, se.String()
+	}
+	if ee, ok := werr.(*exec.ExitError); ok {
+		return ee.ExitCode(), signalled, se.String()
+	}
+	return -1, signalled, se.String()
 }
